@@ -3,6 +3,7 @@
  */
 
 #include <stdlib.h>
+#include <ctype.h>
 #include <string.h>
 #include <float.h>
 #include <limits.h>
@@ -212,6 +213,12 @@ extern MPT_INTERFACE(metatype) *_mpt_iterator_linear(MPT_STRUCT(value) *val)
 			errno = EINVAL;
 			return 0;
 		}
+		/* nothing but white space may follow */
+		while (isspace(*(++str)));
+		if (*str) {
+			errno = EINVAL;
+			return 0;
+		}
 	}
 	else {
 		errno = EINVAL;
@@ -274,6 +281,12 @@ extern MPT_INTERFACE(metatype) *_mpt_iterator_range(MPT_STRUCT(value) *val)
 				str += ret + 1;
 			}
 			if ((ret = mpt_string_nextvis(&str)) != ')') {
+				errno = EINVAL;
+				return 0;
+			}
+			/* nothing but white space may follow */
+			while (isspace(*(++str)));
+			if (*str) {
 				errno = EINVAL;
 				return 0;
 			}
